@@ -30,15 +30,23 @@ class _InstanceTimeout(BaseException):
 def _worker(spec):
     import signal
 
+    _dump_on_usr1()
+
     # die with the parent (a check killed by an outer timeout must not leave workers spinning)
     try:
         import ctypes
 
         ctypes.CDLL("libc.so.6", use_errno=True).prctl(1, signal.SIGKILL)  # PR_SET_PDEATHSIG
-        if os.getppid() == 1:
-            os._exit(0)
+        if spec.get("parent_pid") and os.getppid() != spec["parent_pid"]:
+            os._exit(0)  # the parent went away before the signal was armed
     except Exception:
         pass
+
+    # self-test hook for the broken-pool recovery: SYMX_TEST_DIE=<marker file> makes one worker die once
+    mk = os.environ.get("SYMX_TEST_DIE")
+    if mk and not os.path.exists(mk):
+        open(mk, "w").close()
+        os._exit(77)
 
     # hard wall-clock limit per instance: pure-Python polynomial arithmetic has no other interruption point
     limit = int(spec.get("limits", {}).get("max_s", 900) * 1.5) + 120
@@ -51,6 +59,17 @@ def _worker(spec):
         signal.alarm(limit)
     except (ValueError, AttributeError):
         pass
+    # last resort: a solver call that ignores its own limits never returns to Python, so the alarm above cannot
+    # fire; a timer thread (foreign calls release the GIL) then ends this worker process.  The parent sees a broken
+    # pool and re-runs what was unfinished in a fresh one.
+    import threading
+
+    from symx import core as _core
+
+    _core.WATCHDOG = True  # per solver call: allowance + 90 s
+    dog = threading.Timer(limit + 60, lambda: os._exit(77))
+    dog.daemon = True
+    dog.start()
     try:
         return driver.run_instance(spec)
     except _InstanceTimeout:
@@ -62,6 +81,7 @@ def _worker(spec):
         return {"spec": {k: spec.get(k) for k in ("prop", "module", "func", "cfg")}, "engine_error":
                 "%s: %s\n%s" % (type(e).__name__, e, traceback.format_exc(limit=-8))}
     finally:
+        dog.cancel()
         try:
             signal.alarm(0)
         except Exception:
@@ -96,7 +116,19 @@ def replay_file(path, timeout=600):
     return {"failed": [], "error": "replay crashed: " + (p.stderr[-800:] or p.stdout[-800:]), "crash": True}
 
 
+def _dump_on_usr1():
+    """debug aid: `kill -USR1 <pid>` prints the Python stacks of a (seemingly) stuck process to stderr"""
+    try:
+        import faulthandler
+        import signal
+
+        faulthandler.register(signal.SIGUSR1, all_threads=True)
+    except Exception:
+        pass
+
+
 def main(argv=None):
+    _dump_on_usr1()
     ap = argparse.ArgumentParser()
     ap.add_argument("prop")
     ap.add_argument("--tier", default=os.environ.get("VERIF_TIER", "quick"))
@@ -126,7 +158,8 @@ def main(argv=None):
             lim.setdefault("xcheck", 2)  # cvc5 second opinion on up to 2 solver-decided obligations per instance
         if a.only and not re.search(a.only, func):
             continue
-        specs.append({"prop": prop, "module": hmod.__name__, "func": func, "cfg": cfg, "limits": lim})
+        specs.append({"prop": prop, "module": hmod.__name__, "func": func, "cfg": cfg, "limits": lim,
+                      "parent_pid": os.getpid()})
     pre = getattr(hmod, "pre_run", None)
     extra_results = pre(a.tier) if pre else []
     results = []
@@ -221,18 +254,32 @@ def main(argv=None):
                                    "traceback": c.get("traceback", "")})
 
     grace = float(os.environ.get("SYMX_GRACE_S", "90" if a.tier == "quick" else "600"))
-    if specs:
+    todo = list(specs)
+    for attempt in (1, 2):
+        if not todo or cut_short:
+            break
         ctx = mp.get_context("spawn")
-        ex = cf.ProcessPoolExecutor(max_workers=max(1, min(a.jobs, len(specs))), mp_context=ctx)
-        futs = {ex.submit(_worker, sp_): sp_ for sp_ in specs}
+        ex = cf.ProcessPoolExecutor(max_workers=max(1, min(a.jobs, len(todo))), mp_context=ctx)
+        futs = {ex.submit(_worker, sp_): sp_ for sp_ in todo}
         pending = set(futs)
+        finished = set()
+        broken = False
         deadline = None
         while pending:
             done, pending = cf.wait(pending, timeout=5, return_when=cf.FIRST_COMPLETED)
             for f in done:
-                r = f.result()
+                try:
+                    r = f.result()
+                except cf.process.BrokenProcessPool:
+                    broken = True
+                    continue
+                finished.add(f)
                 results.append(r)
                 handle(r)
+            if broken:
+                # a worker process died (its watchdog ended a solver call that would not return): everything that
+                # has no result yet is run again in a fresh pool, once
+                break
             if violations and deadline is None:
                 # a replayed, unlisted violation decides the run (exit 1): the remaining instances get a grace
                 # period and are then stopped, so that a change which also makes the solver slow is reported in
@@ -246,16 +293,21 @@ def main(argv=None):
                 for f in pending:
                     f.cancel()
                     cut_short.append("%s%s" % (futs[f]["func"], json.dumps(futs[f]["cfg"], sort_keys=True)))
-                procs = list(getattr(ex, "_processes", {}).values())
-                ex.shutdown(wait=False, cancel_futures=True)
-                for pr in procs:
-                    try:
-                        pr.kill()
-                    except Exception:
-                        pass
                 pending = set()
-        if not cut_short:
+        todo = [sp_ for f, sp_ in futs.items() if f not in finished] if broken else []
+        if broken or cut_short:
+            procs = list(getattr(ex, "_processes", {}).values())
+            ex.shutdown(wait=False, cancel_futures=True)
+            for pr in procs:
+                try:
+                    pr.kill()
+                except Exception:
+                    pass
+        else:
             ex.shutdown(wait=True)
+    for sp_ in todo:
+        inconclusive.append("engine error in %s%s: worker process died twice (not a verdict)" % (
+            sp_["func"], json.dumps(sp_["cfg"], sort_keys=True)))
     for r in extra_results:
         handle(r)
     for t in cut_short[:20]:
